@@ -1068,6 +1068,32 @@ def ev_symv(c, desc, seed, tier):
                                 c.count('dense-side-differs-from-model:symv')
                         except Exception:
                             c.count('dense-side-differs-from-model:symv-raises')
+    # every square sub-block (order n - 1) addressed through n and offsetA, both triangles
+    if n >= 2:
+        n2 = n - 1
+        for uplo in 'LU':
+            for r0 in range(n - n2 + 1):
+                for c0 in range(n - n2 + 1):
+                    c.n += 1
+                    K = 'C16:symv:uplo=%s:subblock' % uplo
+                    sub = {'A': desc, 'uplo': uplo, 'n': n2, 'offsetA': r0 + c0 * n, 'block-at': [r0, c0]}
+                    Bm = R.D(n2, n2, tc, [Am.a[(c0 + j) * n + r0 + i] for j in range(n2) for i in range(n2)])
+                    xl, yl = _vec(seed, n2, tc, 3), _vec(seed, n2, tc, 5)
+                    x, y = matrix(xl, (n2, 1), tc), matrix(yl, (n2, 1), tc)
+                    try:
+                        base.symv(A, x, y, uplo=uplo, alpha=scal_of(AB[1], tc), beta=scal_of(AB[0], tc), n=n2, offsetA=r0 + c0 * n)
+                    except Exception as e:
+                        c.fail(K + ':exception:' + type(e).__name__, 'valid call raised %r' % e, sub)
+                        continue
+                    want = R.symv(Bm, xl, yl, uplo, scal_of(AB[1], tc), scal_of(AB[0], tc))
+                    got = list(y)
+                    bad = [q for q in range(n2) if not same(got[q], want[q])]
+                    if bad:
+                        c.fail(K + ':value', 'y[%d] is %r, expected %r; y=%r expected %r' % (bad[0], got[bad[0]], want[bad[0]], got, want), sub)
+                    else:
+                        c.count('symv:ok')
+                    if snap(A) != sA:
+                        c.fail(K + ':operand-modified', 'A changed', sub)
 
 
 def ev_gemm(c, m, n, k, tc, combo, tA, tB, seed, tier, npat=None, ab=None, partials=None):
